@@ -42,11 +42,18 @@ Judge(op, judged, bad) ==
 
 Small(w) == Lt(w, "65536") /\ BigLeq(Zero, w)     \* an offset the generator may use
 
+\* a stack item that is not a word (negative, or 2^256 and above) is a wrong result of the step that produced it;
+\* later steps that would compute with it are not judged
+AllWords(s) == \A i \in DOMAIN s : IsWord(s[i])
+
 StepEv(e, after) ==
    LET before == e.b
        op     == e.op
        n      == Len(before)
    IN
+   IF ~AllWords(before) THEN UNCHANGED <<mem, sto, viol, fired>>
+   ELSE IF ~AllWords(after) THEN Judge(op, {"Result"}, {"Result"}) /\ UNCHANGED <<mem, sto>>
+   ELSE
    CASE op \in CompOps ->
           \* "returns the result defined by the EVM specification modulo 2^256",
           \* "never disturbs other stack items", "charges the specified gas"
